@@ -1179,6 +1179,80 @@ fn guard_kind(sc: &Scope, id: u32) -> Option<Stmt> {
 }
 
 /// Run one program on the real guards and compare with the model. Returns (failure, guards run)
+/// Histories the shape interpreter does not build: a guard whose own closure panics (later guards of the same
+/// thread still run, in order), a guard made inside another guard's closure, both forms of guard. Every
+/// scenario runs on a fresh thread and once more all in a row on one thread.
+fn defer_history_probe() -> Vec<Fail> {
+    use std::sync::{Arc, Mutex};
+    type Log = Arc<Mutex<Vec<&'static str>>>;
+    fn panicking_closure(log: &Log) {
+        let l = log.clone();
+        let _ = catch_unwind(AssertUnwindSafe(move || {
+            let _g = defer(move || {
+                l.lock().unwrap().push("p");
+                panic!("C19 defer probe panic in a deferred closure");
+            });
+        }));
+    }
+    fn plain_pair(log: &Log) {
+        let (a, b) = (log.clone(), log.clone());
+        let _g = defer(move || a.lock().unwrap().push("1"));
+        defer!(b.lock().unwrap().push("2"));
+    }
+    fn nested(log: &Log) {
+        let (o, i) = (log.clone(), log.clone());
+        let _g = defer(move || {
+            let i2 = i.clone();
+            let _h = defer(move || i2.lock().unwrap().push("inner"));
+            o.lock().unwrap().push("outer-body");
+        });
+    }
+    fn unwinding_then_pair(log: &Log) {
+        let a = log.clone();
+        let _ = catch_unwind(AssertUnwindSafe(move || {
+            let _g = defer(move || a.lock().unwrap().push("u"));
+            panic!("C19 defer probe panic in a scope body");
+        }));
+        plain_pair(log);
+    }
+    let scenarios: Vec<(&'static str, fn(&Log), Vec<&'static str>)> = vec![
+        ("a guard whose closure panics, then two guards in a later scope", |l| { panicking_closure(l); plain_pair(l) }, vec!["p", "2", "1"]),
+        ("a guard created inside another guard's closure", nested, vec!["outer-body", "inner"]),
+        ("a scope left by unwinding, then two guards in a later scope", unwinding_then_pair, vec!["u", "2", "1"]),
+        ("two closures that panic, then nested guards", |l| { panicking_closure(l); panicking_closure(l); nested(l) }, vec!["p", "p", "outer-body", "inner"]),
+    ];
+    let mut out = vec![];
+    let run_on_thread = |fs: Vec<fn(&Log)>| -> Result<Vec<&'static str>, String> {
+        let log: Log = Arc::new(Mutex::new(vec![]));
+        let l2 = log.clone();
+        let h = std::thread::spawn(move || {
+            for f in fs {
+                f(&l2);
+            }
+        });
+        match h.join() {
+            Ok(()) => Ok(log.lock().unwrap_or_else(|e| e.into_inner()).clone()),
+            Err(e) => Err(pmsg(e)),
+        }
+    };
+    for (name, f, want) in &scenarios {
+        match run_on_thread(vec![*f]) {
+            Ok(got) if &got == want => {},
+            Ok(got) => out.push(("defer history closures-not-run-exactly-once-in-order".to_string(), format!("{}: closures ran as {:?}, expected {:?}", name, got, want), J::obj([("part", J::s("defer-history"))]))),
+            Err(m) => out.push(("defer history foreign-panic".to_string(), format!("{}: the thread panicked with {:?}", name, m), J::obj([("part", J::s("defer-history"))]))),
+        }
+    }
+    let all: Vec<fn(&Log)> = scenarios.iter().map(|x| x.1).collect();
+    let want_all: Vec<&'static str> = scenarios.iter().flat_map(|x| x.2.clone()).collect();
+    match run_on_thread(all) {
+        Ok(got) if got == want_all => {},
+        Ok(got) => out.push(("defer history closures-not-run-exactly-once-in-order".to_string(), format!("all scenarios in a row on one thread: closures ran as {:?}, expected {:?}", got, want_all), J::obj([("part", J::s("defer-history"))]))),
+        Err(m) => out.push(("defer history foreign-panic".to_string(), format!("all scenarios in a row: the thread panicked with {:?}", m), J::obj([("part", J::s("defer-history"))]))),
+    }
+    out.dedup_by(|a, b| a.0 == b.0);
+    out
+}
+
 fn check_defer(root: &Scope) -> (Option<Fail>, usize) {
     let mut want = vec![];
     let mut flows = BTreeMap::new();
@@ -1521,6 +1595,11 @@ pub fn run(ctx: &Ctx) -> i32 {
 
     // ---- (f) defer -----------------------------------------------------------------------------
     let pf = Part::default();
+    pf.add(5, 5);
+    for f in defer_history_probe() {
+        report(f);
+    }
+    bounds.push("(f) defer histories: a guard whose closure panics / a guard made inside a guard's closure / a scope left by unwinding, each followed by ordinary guards, on fresh threads and all in a row on one thread".to_string());
     let spaces: Vec<(Vec<usize>, Vec<u8>)> = if thorough {
         vec![(vec![1, 1], vec![0, 1, 2, 3]), (vec![2, 1], vec![0, 1, 2, 3]), (vec![1, 2], vec![0, 1, 2, 3]), (vec![2], vec![0, 1, 2, 3])]
     } else {
@@ -1716,6 +1795,9 @@ fn replay(ctx: &Ctx, file: &std::path::Path) -> i32 {
             if let Some(f) = check_twp(&seq, geti("pred") as usize, geti("mode") as usize) {
                 fails.push(f);
             }
+        },
+        "defer-history" => {
+            fails.extend(defer_history_probe());
         },
         "defer" => {
             let root = parse_program(&gets("program")).expect("program text");
